@@ -23,6 +23,24 @@
 // precede it (that setter discards the scatter-point image, as its body says).  A history step that changes the threshold gives
 // the scatter-point image again, which IS a listed change.
 //
+// Extension (coverage gap: downsample_density_image_for_scatter_points, set_image_downsample_factors and
+// downsample_images_to_scanner_size were never executed): the scatter-point image of a history can also be DERIVED from the
+// attenuation image - by downsample_density_image_for_scatter_points(zoom_xy, zoom_z, size_xy, size_z) ("mode 1") or inside
+// set_up() after set_image_downsample_factors(...) + set_density_image_sptr() ("mode 2"), or inside set_up() with the automatic
+// factors of a default-constructed object ("mode 3"; the history object gets them back through
+// downsample_density_image_for_scatter_points(-1,-1,-1,-1), the setter rejects negative zooms) - and a step can call
+// downsample_images_to_scanner_size() (activity and attenuation image are replaced by their zoom onto the grid of the template
+// in force at that moment; documented "call after having set all data") or downsample_scanner() on the current (possibly
+// already down-sampled) template.  The fresh objects reach the same final state through the same public calls: a prelude
+// {template of that moment, source activity, source attenuation, downsample_images_to_scanner_size()} and then the final values.
+// A derivation that reads the template (negative zoom = "automatic") is repeated after every template change, so that "final
+// values" stay well defined.  After downsample_images_to_scanner_size() the z-middle of both images is that of the template grid,
+// so the scatter-point image is given again (set_up rejects images with different z-middles, issue #495) and later images use it.
+//
+// A mismatch / rejection of a derivation inside set_up() on an object that derived a scatter-point image before without
+// set_image_downsample_factors() since is attributed by emulation to KEY_ZOOM (the library stored the values it derived in the
+// members that hold the request).
+//
 // A mismatch after the energy window was changed by set_exam_info() following a process_data() with the same template is
 // attributed by emulation (the minimal 2-step history on a fresh object reproduces the output bit-exactly) and reported under
 // the defect-specific key KEY_EXAM; everything else is reported under the generic keys.
@@ -99,6 +117,10 @@ struct World // case-wide constants that keep every generated combination inside
   float zmid;  // (nz-1)*vz/2 of every image (set_up checks that all three images agree on this, issue #495)
   bool big;
   bool allow_blocks = true;
+  // > 0 ("aligned" histories): every template gets the ring spacing that puts the z-middle of its image grid,
+  // (rings-1)*ring_spacing/2 after down-sampling, at this value = the z-middle of the images, so that
+  // downsample_images_to_scanner_size() keeps the z-middle and the scatter-point image given before stays acceptable
+  float tmpl_zmid = 0;
 };
 
 struct Geo
@@ -182,13 +204,20 @@ struct Tmpl
   float radius = 100, ring_spacing = 4, eres = 0.14f, eref = 511.f;
   int trans_per_block = 0; // > 0: BlocksOnCylindrical with that many crystals per (transaxial) block
   int ds_rings = 0, ds_dets = 0; // > 0: set_template_proj_data_info(pdi) is followed by downsample_scanner(ds_rings, ds_dets)
+  int ds2_rings = 0, ds2_dets = 0; // > 0: ... and then by a second downsample_scanner(ds2_rings, ds2_dets) (history step)
+  bool ds2_via_members = false;    // second call as set_num_downsample_scanner_rings/dets(...) + downsample_scanner()
+  int eff_rings() const { return ds2_rings ? ds2_rings : ds_rings ? ds_rings : nrings; }
+  int eff_dets() const { return ds2_dets ? ds2_dets : ds_dets ? ds_dets : ndet; }
   int id = 0;
   shared_ptr<ProjDataInfo> pdi;
   std::string str() const
   {
     return vf::fmt("tmpl#%d ndet %d rings %d R %.5g spacing %.4g eres %.4g eref %.4g max_delta %d num_tang %d blocks %d", id, ndet, nrings,
                    radius, ring_spacing, eres, eref, max_delta, num_tang, trans_per_block)
-           + (ds_rings ? vf::fmt(" then downsample_scanner(%d,%d)", ds_rings, ds_dets) : std::string());
+           + (ds_rings ? vf::fmt(" then downsample_scanner(%d,%d)", ds_rings, ds_dets) : std::string())
+           + (ds2_rings ? vf::fmt(" then%s downsample_scanner(%d,%d)", ds2_via_members ? " (through the set_num_downsample_scanner_* members)" : "",
+                                  ds2_rings, ds2_dets)
+                        : std::string());
   }
 };
 static int g_tmpl_counter = 0;
@@ -210,6 +239,8 @@ gen_tmpl(Rng& rng, const World& w)
     }
   t.radius = static_cast<float>(w.rbase * rng.uniform(1.0, 1.5));
   t.ring_spacing = static_cast<float>(rng.uniform(3, 8));
+  if (w.tmpl_zmid > 0) // (downsample_scanner keeps rings*ring_spacing of a cylindrical scanner)
+    t.ring_spacing = downsample ? 2.f * w.tmpl_zmid / (t.ds_rings - 1) * t.ds_rings / t.nrings : 2.f * w.tmpl_zmid / (t.nrings - 1);
   t.eres = static_cast<float>(rng.uniform(0.08, 0.35));
   t.eref = rng.coin(0.7) ? 511.f : static_cast<float>(rng.uniform(400, 700));
   t.max_delta = static_cast<int>(rng.range(0, t.nrings - 1));
@@ -261,20 +292,125 @@ gen_window(Rng& rng, float& low, float& high)
   high = static_cast<float>(rng.uniform(520, 750));
 }
 
+// how the scatter-point image is given
+struct SpHow
+{
+  int mode = 0; // 0: set_density_image_for_scatter_points_sptr(sp); 1: downsample_density_image_for_scatter_points(args);
+                // 2: set_image_downsample_factors(args) + set_density_image_sptr(att), derived inside set_up
+                // 3: automatic factors (those of a default-constructed object: all -1) + set_density_image_sptr(att), derived inside set_up
+  float zxy = 1, zz = 1;
+  int sxy = -1, sz = -1;
+  bool uses_tmpl = false;      // a negative zoom: the call reads the template, which therefore has to be set before
+  bool tmpl_dependent = false; // ... and the derived image depends on it (the derivation is repeated after a template change)
+  std::string str() const
+  {
+    if (mode == 3)
+      return "set_up with the default (automatic) down-sampling factors";
+    return vf::fmt("%s(%.9g,%.9g,%d,%d)", mode == 1 ? "downsample_density_image_for_scatter_points" : "set_image_downsample_factors", zxy,
+                   zz, sxy, sz);
+  }
+};
+
+// activity / attenuation image replaced by downsample_images_to_scanner_size() called when `tmpl` was in force
+struct DsImg
+{
+  bool act = false, att = false; // the current activity / attenuation image is still the one made by that call
+  Tmpl tmpl;
+  Img act_src, att_src;
+};
+
 // the values a simulation is configured with ("final values" of the history clause)
 struct State
 {
   Tmpl tmpl;
   float low = 350, high = 650;
   Img act, att, sp;
+  SpHow how;
+  DsImg dsi;
   float thr = 0.01f;
   bool cache = true;
+  // number of planes of the attenuation image in force
+  int att_nz() const { return dsi.att ? 2 * dsi.tmpl.eff_rings() - 1 : att.g.nz; }
   std::string str() const
   {
-    return tmpl.str() + vf::fmt("; window [%.6g,%.6g]; ", low, high) + act.what + "; " + att.what + "; " + sp.what
+    std::string a = act.what, b = att.what;
+    if (dsi.act || dsi.att)
+      {
+        const std::string call = vf::fmt(" zoomed by downsample_images_to_scanner_size() under tmpl#%d", dsi.tmpl.id);
+        if (dsi.act)
+          a = dsi.act_src.what + call;
+        if (dsi.att)
+          b = dsi.att_src.what + call;
+        b += " [that template: " + dsi.tmpl.str() + "]";
+      }
+    return tmpl.str() + vf::fmt("; window [%.6g,%.6g]; ", low, high) + a + "; " + b + "; " + (how.mode ? "sp by " + how.str() : sp.what)
            + vf::fmt("; threshold %.4g; cache %d", thr, static_cast<int>(cache));
   }
 };
+
+// what the library will do with these arguments for an attenuation image of old_z planes (used to keep the generator inside
+// what downsample_density_image_for_scatter_points accepts: it adjusts zoom_z to (new_z-1)/(old_z-1) and rejects a given
+// zoom_z that is more than 0.1 away from that; fewer than 2 planes would give an infinite plane separation)
+static bool
+how_ok(const SpHow& h, int old_z)
+{
+  if (h.zz < 0)
+    return h.sz >= 2 || h.sz == -1;
+  const int new_z = h.sz == -1 ? static_cast<int>(old_z * h.zz + 1) : h.sz;
+  if (new_z < 2)
+    return false;
+  return std::fabs(static_cast<float>(new_z - 1) / (old_z - 1) - h.zz) <= 0.08f;
+}
+
+static SpHow
+gen_how(Rng& rng, int mode, int old_z)
+{
+  SpHow h;
+  h.mode = mode;
+  if (mode == 3)
+    {
+      h.zxy = h.zz = -1.f;
+      h.sxy = h.sz = -1;
+      h.uses_tmpl = h.tmpl_dependent = true;
+      return h;
+    }
+  h.zxy = rng.coin(0.2) ? 1.f : static_cast<float>(rng.uniform(0.3, 1.3));
+  h.sxy = rng.coin(0.6) ? -1 : static_cast<int>(rng.range(1, 7)); // (the library makes an even size odd)
+  const int new_z = static_cast<int>(rng.range(2, old_z + 1));
+  // set_image_downsample_factors rejects negative zooms, so "automatic" is only available through the direct call
+  long variant = mode == 2 ? (rng.coin(0.5) ? 0 : 2) : rng.range(0, 3);
+  if (variant == 2)
+    {
+      h.sz = -1;
+      bool ok = false;
+      for (int k = 0; k < 8 && !ok; ++k)
+        {
+          h.zz = static_cast<float>(rng.uniform(0.4, 1.3));
+          ok = how_ok(h, old_z);
+        }
+      if (!ok)
+        variant = 0;
+    }
+  if (variant == 0)
+    { // as test_ScatterSimulation does: zoom_z consistent with the number of planes asked for
+      h.zz = static_cast<float>(new_z - 1) / (old_z - 1);
+      h.sz = new_z;
+    }
+  else if (variant == 1)
+    { // zoom_z "automatic" with a given number of planes (reads the template, the result does not depend on it)
+      h.zz = -1.f;
+      h.sz = new_z;
+      h.uses_tmpl = true;
+    }
+  else if (variant == 3)
+    { // zoom_xy and zoom_z automatic: voxel size of the template grid, number of planes = number of rings unless given
+      h.zxy = -1.f;
+      h.zz = -1.f;
+      h.sz = rng.coin(0.5) ? -1 : new_z;
+      h.uses_tmpl = h.tmpl_dependent = true;
+    }
+  return h;
+}
 
 static Img
 gen_sp_image(Rng& rng, const World& w, const Img& att)
@@ -332,6 +468,9 @@ enum Setter
   S_ATT,
   S_SP,
   S_CACHE,
+  S_SPDS,  // downsample_density_image_for_scatter_points(st.how)
+  S_FACT,  // set_image_downsample_factors(st.how)
+  S_DSIMG, // downsample_images_to_scanner_size()
   S_COUNT
 };
 static const char* const k_setter_name[] = { "set_randomly_place_scatter_points",
@@ -341,7 +480,10 @@ static const char* const k_setter_name[] = { "set_randomly_place_scatter_points"
                                              "set_activity_image_sptr",
                                              "set_density_image_sptr",
                                              "set_density_image_for_scatter_points_sptr",
-                                             "set_use_cache" };
+                                             "set_use_cache",
+                                             "downsample_density_image_for_scatter_points",
+                                             "set_image_downsample_factors",
+                                             "downsample_images_to_scanner_size" };
 
 struct Obj
 {
@@ -351,6 +493,17 @@ struct Obj
   bool eff_valid = false; // a process_data happened since the last template change (the 511 keV efficiency was computed then)
   float eff_low = 0, eff_high = 0;
   std::vector<std::string> log;
+  // the derivations of a scatter-point image by the library since all four down-sampling factors were last given (by
+  // set_image_downsample_factors or as arguments of the direct call): the states they were made for (attribution only)
+  bool factors_given_since = false; // set_image_downsample_factors since the last derivation
+  std::vector<std::shared_ptr<State>> derivations;
+  void note_derivation(const State& st, bool by_direct_call)
+  {
+    if (by_direct_call || factors_given_since)
+      derivations.clear();
+    factors_given_since = false;
+    derivations.push_back(std::shared_ptr<State>(new State(st)));
+  }
 
   // the energy window was changed after a process_data and the template was not set since
   bool eff_stale() const { return eff_valid && (eff_low != obj_low || eff_high != obj_high); }
@@ -388,6 +541,23 @@ struct Obj
             log.push_back(vf::fmt("downsample_scanner(%d,%d)", st.tmpl.ds_rings, st.tmpl.ds_dets));
             ctx.count("setter:downsample_scanner");
           }
+        if (st.tmpl.ds2_rings)
+          downsample_again(ctx, st);
+        break;
+      case S_SPDS:
+        sim.downsample_density_image_for_scatter_points(st.how.zxy, st.how.zz, st.how.sxy, st.how.sz);
+        log.push_back(vf::fmt("downsample_density_image_for_scatter_points(%.9g,%.9g,%d,%d)", st.how.zxy, st.how.zz, st.how.sxy, st.how.sz));
+        note_derivation(st, true);
+        break;
+      case S_FACT:
+        sim.set_image_downsample_factors(st.how.zxy, st.how.zz, st.how.sxy, st.how.sz);
+        log.push_back(st.how.str());
+        factors_given_since = true;
+        break;
+      case S_DSIMG:
+        if (sim.downsample_images_to_scanner_size() != Succeeded::yes)
+          throw vf::Skip("downsample_images_to_scanner_size returned Succeeded::no");
+        log.push_back("downsample_images_to_scanner_size()");
         break;
       case S_EXAM:
         if (variant)
@@ -427,6 +597,34 @@ struct Obj
     if (s == S_CACHE && variant)
       ctx.count("setter:set_cache_enabled");
   }
+  // the second downsample_scanner of st.tmpl, applied to the template the object has now
+  void downsample_again(Ctx& ctx, const State& st)
+  {
+    bool ok = false;
+    std::string why = "returned Succeeded::no";
+    try
+      {
+        if (st.tmpl.ds2_via_members)
+          {
+            sim.set_num_downsample_scanner_rings(st.tmpl.ds2_rings);
+            sim.set_num_downsample_scanner_dets(st.tmpl.ds2_dets);
+            ok = sim.downsample_scanner() == Succeeded::yes;
+          }
+        else
+          ok = sim.downsample_scanner(st.tmpl.ds2_rings, st.tmpl.ds2_dets) == Succeeded::yes;
+      }
+    catch (const std::exception& e)
+      {
+        why = e.what();
+      }
+    if (!ok)
+      throw vf::Skip("second downsample_scanner rejected: " + why);
+    eff_valid = false;
+    log.push_back(vf::fmt("%sdownsample_scanner(%d,%d)", st.tmpl.ds2_via_members ? "set_num_downsample_scanner_rings/dets + " : "",
+                          st.tmpl.ds2_rings, st.tmpl.ds2_dets));
+    ctx.count("setter:downsample_scanner");
+    ctx.count("setter:downsample_scanner_of_downsampled_or_current_template");
+  }
   std::string log_str(std::size_t last = 40) const
   {
     std::string o;
@@ -460,10 +658,16 @@ run(Ctx& ctx, Obj& o, const State& st, int set_up_calls = 1)
   r.pd->fill(-7.F); // process_data has to overwrite every bin
   o.sim.set_output_proj_data_sptr(r.pd);
   ctx.count("setter:set_output_proj_data_sptr");
+  const bool derives = !o.sim.get_density_image_for_scatter_points_sptr() && set_up_calls > 0;
   try
     {
       for (int k = 0; k < set_up_calls; ++k)
         {
+          if (k == 0 && derives)
+            {
+              o.log.push_back("(set_up derives the scatter-point image)");
+              ctx.count("set_up_derives_scatter_point_image");
+            }
           if (o.sim.set_up() != Succeeded::yes)
             {
               r.err = "set_up returned Succeeded::no";
@@ -471,6 +675,8 @@ run(Ctx& ctx, Obj& o, const State& st, int set_up_calls = 1)
             }
           o.log.push_back("set_up");
           ctx.count("set_up_calls");
+          if (k == 0 && derives)
+            o.note_derivation(st, false);
         }
       if (set_up_calls == 0)
         ctx.count("process_data_again_without_set_up");
@@ -511,11 +717,53 @@ run(Ctx& ctx, Obj& o, const State& st, int set_up_calls = 1)
 
 static const Setter k_canonical[] = { S_RND, S_THR, S_TMPL, S_EXAM, S_ACT, S_ATT, S_SP, S_CACHE };
 
+// the calls that made the down-sampled activity / attenuation image of the state: template of that moment, source images,
+// downsample_images_to_scanner_size() ("should be called after having set all data")
+static void
+apply_prelude(Ctx& ctx, Obj& o, const State& st)
+{
+  State p = st;
+  p.tmpl = st.dsi.tmpl;
+  p.act = st.dsi.act_src;
+  p.att = st.dsi.att_src;
+  o.apply(ctx, p, S_TMPL);
+  o.apply(ctx, p, S_EXAM);
+  o.apply(ctx, p, S_ACT);
+  o.apply(ctx, p, S_ATT);
+  o.apply(ctx, p, S_DSIMG);
+  ctx.count("fresh_objects_with_downsample_images_prelude");
+}
+
+// the setters of the final values that a fresh object still needs after RND, THR (and the prelude), in canonical order
+static std::vector<Setter>
+remaining_setters(const State& st)
+{
+  std::vector<Setter> v;
+  v.push_back(S_TMPL);
+  v.push_back(S_EXAM);
+  if (!st.dsi.act)
+    v.push_back(S_ACT);
+  if (st.how.mode == 2)
+    v.push_back(S_FACT);
+  if (!st.dsi.att)
+    v.push_back(S_ATT);
+  if (st.how.mode < 2)
+    v.push_back(st.how.mode == 1 ? S_SPDS : S_SP);
+  v.push_back(S_CACHE);
+  return v;
+}
+
 static void
 configure_canonical(Ctx& ctx, Obj& o, const State& st)
 {
-  for (Setter s : k_canonical)
-    o.apply(ctx, st, s);
+  o.apply(ctx, st, S_RND);
+  o.apply(ctx, st, S_THR);
+  const bool pre = st.dsi.act || st.dsi.att;
+  if (pre)
+    apply_prelude(ctx, o, st);
+  for (Setter s : remaining_setters(st))
+    if (!(s == S_TMPL && pre && st.tmpl.id == st.dsi.tmpl.id)) // (the template is already the final one)
+      o.apply(ctx, st, s);
 }
 
 // first index where two outputs differ bit-wise (NaN never equals), -1 if identical
@@ -572,8 +820,25 @@ static Out
 fresh_canonical(Ctx& ctx, const State& st, std::string* log = nullptr)
 {
   Obj o;
-  configure_canonical(ctx, o, st);
-  Out r = run(ctx, o, st);
+  Out r;
+  try
+    {
+      configure_canonical(ctx, o, st);
+    }
+  catch (const vf::Skip&)
+    {
+      throw;
+    }
+  catch (const std::exception& e)
+    {
+      r.err = std::string("exception while configuring: ") + e.what();
+    }
+  catch (const std::string& e)
+    {
+      r.err = std::string("exception while configuring: ") + e;
+    }
+  if (r.err.empty())
+    r = run(ctx, o, st);
   if (log)
     *log = o.log_str();
   return r;
@@ -756,6 +1021,8 @@ case_pairs(Ctx& ctx)
 }
 
 // ------------------------------------------------------------------------------------------------ kind "history"
+static const char* const KEY_ZOOM
+    = "history:scatter-point-zoom-request-overwritten-by-derived-values:downsample_density_image_for_scatter_points";
 static const char* const KEY_EXAM = "history:stale-511keV-detection-efficiency:set_exam_info-after-process_data";
 
 // returns false if a violation was reported
@@ -779,6 +1046,24 @@ checkpoint(Ctx& ctx, Obj& hist, const State& st, bool first, bool& nonzero, bool
   const float stale_low = hist.eff_low, stale_high = hist.eff_high;
   if (h_eff)
     ctx.count("states:energy-window-changed-after-process_data-with-same-template");
+  if (st.how.mode == 1)
+    ctx.count("checkpoints_sp_derived_by_downsample_density_image_for_scatter_points");
+  if (st.how.mode == 2)
+    ctx.count("checkpoints_sp_derived_in_set_up_from_set_image_downsample_factors");
+  if (st.how.mode == 3)
+    ctx.count("checkpoints_sp_derived_in_set_up_with_default_factors");
+  if (st.how.mode && st.how.tmpl_dependent)
+    ctx.count("checkpoints_sp_derived_with_automatic_zoom");
+  if (st.dsi.act || st.dsi.att)
+    ctx.count("checkpoints_with_image_from_downsample_images_to_scanner_size");
+  if (st.tmpl.ds2_rings)
+    ctx.count("checkpoints_with_twice_downsampled_scanner");
+  // set_up is going to derive the scatter-point image with the factors the object holds, and the object derived one before
+  // without set_image_downsample_factors since
+  const bool h_zoom = !hist.sim.get_density_image_for_scatter_points_sptr() && !hist.derivations.empty() && !hist.factors_given_since;
+  const std::vector<std::shared_ptr<State>> zoom_chain = hist.derivations;
+  if (h_zoom)
+    ctx.count("states:sp-derived-in-set_up-after-an-earlier-derivation-without-new-factors");
   const bool untouched = !changed_since_set_up && !first;
   Out got = run(ctx, hist, st, untouched && ctx.rng.coin(0.5) ? 0 : (ctx.rng.coin(0.15) ? 2 : 1));
   ctx.count("fresh_object_comparisons");
@@ -789,6 +1074,56 @@ checkpoint(Ctx& ctx, Obj& hist, const State& st, bool first, bool& nonzero, bool
     {
       const std::string what = !got.ok ? ("object with history: " + got.err + ", fresh object accepts") : diff_str(got.v, ref.v);
       // attribution by emulation: the minimal history on a fresh object reproduces the output of the long history
+      if (h_zoom)
+        {
+          // fresh object taken through the states of the earlier derivations (since the factors were last given), each derivation
+          // done, then the final values - without set_image_downsample_factors
+          Obj o;
+          Out e2;
+          bool emulated = true;
+          auto reconfigure = [&](const State& to) {
+            o.apply(ctx, to, S_RND);
+            o.apply(ctx, to, S_THR);
+            if (to.dsi.act || to.dsi.att)
+              apply_prelude(ctx, o, to);
+            for (Setter s : remaining_setters(to))
+              if (s != S_FACT)
+                o.apply(ctx, to, s);
+          };
+          try
+            {
+              for (std::size_t k = 0; k < zoom_chain.size() && emulated; ++k)
+                {
+                  const State& d = *zoom_chain[k];
+                  if (k == 0)
+                    configure_canonical(ctx, o, d);
+                  else
+                    reconfigure(d);
+                  if (d.how.mode >= 2 && !run(ctx, o, d).ok)
+                    emulated = false;
+                }
+              reconfigure(st);
+              e2 = run(ctx, o, st);
+            }
+          catch (const std::exception&)
+            {
+              emulated = false;
+            }
+          if (emulated && ((got.ok && e2.ok && first_difference(e2.v, got.v) < 0) || (!got.ok && !e2.ok && e2.err == got.err)))
+            {
+              const State& d = *zoom_chain.back();
+              ctx.violation(KEY_ZOOM,
+                            "set_up derives the scatter-point image on an object that derived one before (last: " + d.how.str()
+                                + vf::fmt(", attenuation image of %d planes; %zu derivation(s) since the factors were given) and "
+                                          "set_image_downsample_factors was not called since: ",
+                                          d.att_nz(), zoom_chain.size())
+                                + (got.ok ? "output is bit-identical to" : "rejected exactly as")
+                                + " the short history {fresh object taken through the states of those derivations, then the final values} "
+                                  "- the factors in force are no longer the requested ones; vs fresh(final): "
+                                + what + "; " + ctxt + "; emulation: " + o.log_str(60));
+              return false;
+            }
+        }
       if (got.ok && h_eff)
         {
           // fresh object, stale window, process once, then only set_exam_info(final) + set_up
@@ -819,25 +1154,55 @@ checkpoint(Ctx& ctx, Obj& hist, const State& st, bool first, bool& nonzero, bool
   // ---- second fresh object, random setter order
   {
     ctx.heartbeat("history:fresh-random-order");
-    std::vector<Setter> order(k_canonical, k_canonical + 8);
+    const bool pre = st.dsi.act || st.dsi.att;
+    std::vector<Setter> order = remaining_setters(st);
+    if (!pre)
+      {
+        order.push_back(S_RND);
+        order.push_back(S_THR);
+      }
     ctx.rng.shuffle(order);
+    auto has = [&](Setter s) { return std::find(order.begin(), order.end(), s) != order.end(); };
     auto pos = [&](Setter s) { return std::find(order.begin(), order.end(), s) - order.begin(); };
     auto move_before = [&](Setter s, Setter before) {
-      if (pos(s) > pos(before))
+      if (has(s) && has(before) && pos(s) > pos(before))
         {
           order.erase(order.begin() + pos(s));
           order.insert(order.begin() + pos(before), s);
         }
     };
     // set_density_image_sptr documents (in its body) that it discards the scatter-point image: it has to come first;
-    // threshold and random-placement flag are used when the scatter-point image is given (see the top of this file)
-    move_before(S_ATT, S_SP);
-    move_before(S_THR, S_SP);
-    move_before(S_RND, S_SP);
+    // threshold and random-placement flag are used when the scatter-point image is given (see the top of this file);
+    // a derivation with an automatic zoom reads the template
+    const Setter give = st.how.mode == 1 ? S_SPDS : S_SP;
+    move_before(S_ATT, give);
+    move_before(S_THR, give);
+    move_before(S_RND, give);
+    if (st.how.uses_tmpl)
+      move_before(S_TMPL, give);
     Obj fr;
-    for (Setter s : order)
-      fr.apply(ctx, st, s, static_cast<int>(ctx.rng.range(0, 1)));
-    Out got2 = run(ctx, fr, st);
+    Out got2;
+    try
+      {
+        if (pre)
+          { // (the prelude needs its own template, activity and attenuation image first; RND/THR precede every scatter-point image)
+            fr.apply(ctx, st, S_RND);
+            fr.apply(ctx, st, S_THR);
+            apply_prelude(ctx, fr, st);
+          }
+        for (Setter s : order)
+          fr.apply(ctx, st, s, static_cast<int>(ctx.rng.range(0, 1)));
+      }
+    catch (const vf::Skip&)
+      {
+        throw;
+      }
+    catch (const std::exception& e)
+      {
+        got2.err = std::string("exception while configuring: ") + e.what();
+      }
+    if (got2.err.empty())
+      got2 = run(ctx, fr, st);
     ctx.count("fresh_object_comparisons");
     ctx.count("fresh_random_order_comparisons");
     if (!got2.ok || first_difference(got2.v, ref.v) >= 0)
@@ -854,8 +1219,19 @@ checkpoint(Ctx& ctx, Obj& hist, const State& st, bool first, bool& nonzero, bool
 static void
 case_history(Ctx& ctx)
 {
-  const World w = gen_world(ctx);
+  World w = gen_world(ctx); // (zmid changes when downsample_images_to_scanner_size() moves the images to the template grid)
   State st = gen_state(ctx.rng, w);
+  {
+    const double u = ctx.rng.uniform(0, 1);
+    if (u < 0.5)
+      st.how = gen_how(ctx.rng, u < 0.25 ? 1 : u < 0.4 ? 2 : 3, st.att.g.nz);
+  }
+  if (ctx.rng.coin(0.3))
+    { // "aligned" history: the images share the z-middle of the template grids (all templates of the history)
+      w.tmpl_zmid = w.zmid;
+      st.tmpl = gen_tmpl(ctx.rng, w);
+      ctx.count("histories_with_images_on_the_z_middle_of_the_template_grid");
+    }
   const int nsteps = static_cast<int>(ctx.rng.range(4, ctx.thorough() ? 24 : 20));
   const double p_check = ctx.rng.uniform(0.25, 0.6);
   ctx.desc.add("kind", "history").add("steps", nsteps).add("rbase", w.rbase).add("zmid", w.zmid);
@@ -864,16 +1240,47 @@ case_history(Ctx& ctx)
   ctx.count("histories");
 
   Obj hist;
-  {
-    // initial configuration of the history object: random order as well (with the constraints described at the top of this file)
-    std::vector<Setter> order(k_canonical + 1, k_canonical + 8);
-    ctx.rng.shuffle(order);
-    hist.apply(ctx, st, S_RND); // the flag stays off for the whole history
-    for (Setter s : order)
-      if (s != S_SP)
-        hist.apply(ctx, st, s, static_cast<int>(ctx.rng.range(0, 1)));
+  // gives the scatter-point image of the state (again) to the history object
+  auto give_sp = [&]() {
+    if (st.how.mode == 0)
+      hist.apply(ctx, st, S_SP);
+    else if (st.how.mode == 1)
+      hist.apply(ctx, st, S_SPDS);
+    else
+      hist.apply(ctx, st, S_ATT); // the attenuation image again: set_up derives the scatter-point image again
+  };
+  auto new_explicit_sp = [&]() {
+    st.how = SpHow();
+    // (a down-sampled attenuation image lives in the object only: st.att is its source, on a grid with another z-middle)
+    st.sp = st.dsi.att ? gen_attenuation(ctx.rng, gen_geo(ctx.rng, w), "sp") : gen_sp_image(ctx.rng, w, st.att);
     hist.apply(ctx, st, S_SP);
-  }
+  };
+  auto new_att_image = [&]() {
+    st.att = gen_attenuation(ctx.rng, (!st.dsi.att && ctx.rng.coin(0.5)) ? st.att.g : gen_geo(ctx.rng, w), "att");
+    st.dsi.att = false;
+  };
+  try
+    {
+      // initial configuration of the history object: random order as well (with the constraints described at the top of this file)
+      std::vector<Setter> order(k_canonical + 1, k_canonical + 8);
+      if (st.how.mode == 2)
+        order.push_back(S_FACT);
+      ctx.rng.shuffle(order);
+      hist.apply(ctx, st, S_RND); // the flag stays off for the whole history
+      for (Setter s : order)
+        if (s != S_SP)
+          hist.apply(ctx, st, s, static_cast<int>(ctx.rng.range(0, 1)));
+      if (st.how.mode < 2)
+        give_sp();
+    }
+  catch (const vf::Skip&)
+    {
+      throw;
+    }
+  catch (const std::exception& e)
+    {
+      throw vf::Skip(std::string("rejected while configuring: ") + e.what());
+    }
   bool nonzero = false;
   if (!checkpoint(ctx, hist, st, true, nonzero))
     return;
@@ -881,63 +1288,223 @@ case_history(Ctx& ctx)
   for (int step = 0; step < nsteps; ++step)
     {
       ctx.count("history_steps");
-      const long what = ctx.rng.range(0, 11);
-      switch (what)
+      const long what = ctx.rng.range(0, 15);
+      std::string step_error;
+      ctx.heartbeat("history:step");
+      try
         {
-        case 0:
-        case 1: // new activity image (sometimes on another grid)
-          st.act = gen_activity(ctx.rng, ctx.rng.coin(0.6) ? st.act.g : gen_geo(ctx.rng, w));
-          hist.apply(ctx, st, S_ACT);
-          ctx.count("steps_new_activity_image");
-          break;
-        case 2: // new attenuation image; the scatter-point image has to be given again (documented in set_density_image_sptr)
-          st.att = gen_attenuation(ctx.rng, ctx.rng.coin(0.5) ? st.att.g : gen_geo(ctx.rng, w), "att");
-          hist.apply(ctx, st, S_ATT);
-          if (ctx.rng.coin(0.5))
-            st.sp = gen_sp_image(ctx.rng, w, st.att);
-          hist.apply(ctx, st, S_SP);
-          ctx.count("steps_new_attenuation_image");
-          break;
-        case 3: // new scatter-point image
-          st.sp = gen_sp_image(ctx.rng, w, st.att);
-          hist.apply(ctx, st, S_SP);
-          ctx.count("steps_new_scatter_point_image");
-          break;
-        case 4: // new attenuation threshold, then the scatter-point image (the same or a new one) is given again
-          st.thr = gen_threshold(ctx.rng);
-          hist.apply(ctx, st, S_THR);
-          if (ctx.rng.coin(0.3))
-            st.sp = gen_sp_image(ctx.rng, w, st.att);
-          hist.apply(ctx, st, S_SP);
-          ctx.count("steps_new_threshold_and_scatter_point_image_again");
-          break;
-        case 5:
-        case 6: // template (the output projection data are replaced in run())
-          st.tmpl = gen_tmpl(ctx.rng, w);
-          hist.apply(ctx, st, S_TMPL);
-          ctx.count("steps_new_template");
-          break;
-        case 7:
-        case 8: // energy window
-          gen_window(ctx.rng, st.low, st.high);
-          hist.apply(ctx, st, S_EXAM, static_cast<int>(ctx.rng.range(0, 1)));
-          ctx.count("steps_new_energy_window");
-          break;
-        case 9: // cache switch
-          st.cache = !st.cache;
-          hist.apply(ctx, st, S_CACHE, static_cast<int>(ctx.rng.range(0, 1)));
-          ctx.count("steps_cache_switch");
-          break;
-        case 10: // a setter called again with the value it already has
-          {
-            static const Setter again[] = { S_RND, S_THR, S_TMPL, S_EXAM, S_ACT, S_CACHE, S_SP };
-            hist.apply(ctx, st, again[ctx.rng.range(0, 6)], static_cast<int>(ctx.rng.range(0, 1)));
-            ctx.count("steps_same_value_again");
-            break;
-          }
-        default: // nothing new: set_up / process_data again
-          ctx.count("steps_rerun_without_change");
-          break;
+          switch (what)
+            {
+            case 0:
+            case 1: // new activity image (sometimes on another grid)
+              st.act = gen_activity(ctx.rng, (!st.dsi.act && ctx.rng.coin(0.6)) ? st.act.g : gen_geo(ctx.rng, w));
+              st.dsi.act = false;
+              hist.apply(ctx, st, S_ACT);
+              ctx.count("steps_new_activity_image");
+              break;
+            case 2: // new attenuation image; the scatter-point image has to be given again (documented in set_density_image_sptr)
+              new_att_image();
+              if (st.how.mode == 3)
+                {
+                  ctx.count("steps_new_attenuation_image_with_downsample_factors_still_in_force");
+                  hist.apply(ctx, st, S_ATT);
+                }
+              else if (st.how.mode == 2)
+                { // the factors stay in force (sometimes given again); set_up derives the scatter-point image from the new image
+                  if (!how_ok(st.how, st.att.g.nz) || ctx.rng.coin(0.4))
+                    {
+                      st.how = gen_how(ctx.rng, 2, st.att.g.nz);
+                      hist.apply(ctx, st, S_FACT);
+                    }
+                  else
+                    ctx.count("steps_new_attenuation_image_with_downsample_factors_still_in_force");
+                  hist.apply(ctx, st, S_ATT);
+                }
+              else
+                {
+                  hist.apply(ctx, st, S_ATT);
+                  if (st.how.mode == 1 && ctx.rng.coin(0.7))
+                    {
+                      if (!how_ok(st.how, st.att.g.nz) || ctx.rng.coin(0.5))
+                        st.how = gen_how(ctx.rng, 1, st.att.g.nz);
+                      hist.apply(ctx, st, S_SPDS);
+                    }
+                  else if (st.how.mode == 1 || ctx.rng.coin(0.5))
+                    new_explicit_sp();
+                  else
+                    hist.apply(ctx, st, S_SP);
+                }
+              ctx.count("steps_new_attenuation_image");
+              break;
+            case 3: // new scatter-point image
+              new_explicit_sp();
+              ctx.count("steps_new_scatter_point_image");
+              break;
+            case 4: // new attenuation threshold, then the scatter-point image (the same or a new one) is given again
+              st.thr = gen_threshold(ctx.rng);
+              hist.apply(ctx, st, S_THR);
+              if (st.how.mode == 0 && ctx.rng.coin(0.3))
+                new_explicit_sp();
+              else
+                give_sp();
+              ctx.count("steps_new_threshold_and_scatter_point_image_again");
+              break;
+            case 5:
+            case 6: // template (the output projection data are replaced in run())
+              st.tmpl = gen_tmpl(ctx.rng, w);
+              hist.apply(ctx, st, S_TMPL);
+              if (st.how.mode == 1 && st.how.tmpl_dependent)
+                hist.apply(ctx, st, S_SPDS); // automatic zoom: derived from the template, so derived again
+              else if (st.how.mode == 3)
+                hist.apply(ctx, st, S_ATT); // ... by the next set_up
+              ctx.count("steps_new_template");
+              break;
+            case 7:
+            case 8: // energy window
+              gen_window(ctx.rng, st.low, st.high);
+              hist.apply(ctx, st, S_EXAM, static_cast<int>(ctx.rng.range(0, 1)));
+              ctx.count("steps_new_energy_window");
+              break;
+            case 9: // cache switch
+              st.cache = !st.cache;
+              hist.apply(ctx, st, S_CACHE, static_cast<int>(ctx.rng.range(0, 1)));
+              ctx.count("steps_cache_switch");
+              break;
+            case 10: // a setter called again with the value it already has
+              {
+                static const Setter again[] = { S_RND, S_THR, S_TMPL, S_EXAM, S_ACT, S_CACHE, S_SP };
+                Setter s = again[ctx.rng.range(0, 6)];
+                if (s == S_ACT && st.dsi.act)
+                  s = S_EXAM; // (the down-sampled activity image exists in the object only)
+                if (s == S_SP && st.how.mode)
+                  s = st.how.mode == 1 ? S_SPDS : st.how.mode == 2 ? S_FACT : S_EXAM;
+                hist.apply(ctx, st, s, static_cast<int>(ctx.rng.range(0, 1)));
+                ctx.count("steps_same_value_again");
+                break;
+              }
+            case 12: // scatter-point image derived from the attenuation image in force by the public down-sampling function
+              st.how = gen_how(ctx.rng, 1, st.att_nz());
+              hist.apply(ctx, st, S_SPDS);
+              ctx.count("steps_sp_by_downsample_density_image_for_scatter_points");
+              if (st.how.tmpl_dependent)
+                ctx.count("steps_sp_by_downsample_density_image_for_scatter_points_automatic_zoom");
+              break;
+            case 13: // down-sampling factors + (the same or a new) attenuation image: set_up derives the scatter-point image
+              if (ctx.rng.coin(0.3))
+                { // the automatic factors of a default-constructed object: the setter rejects negative values, the direct
+                  // call accepts them; then the (same or a new) attenuation image, set_up derives with the factors in force
+                  st.how = gen_how(ctx.rng, 3, 0);
+                  st.how.mode = 1;
+                  hist.apply(ctx, st, S_SPDS);
+                  st.how.mode = 3;
+                  if (st.dsi.att || ctx.rng.coin(0.5))
+                    new_att_image();
+                  hist.apply(ctx, st, S_ATT);
+                  ctx.count("steps_sp_by_default_factors_and_set_up");
+                  break;
+                }
+              {
+                if (st.dsi.att || ctx.rng.coin(0.5))
+                  new_att_image();
+                st.how = gen_how(ctx.rng, 2, st.att.g.nz);
+                const bool factors_first = ctx.rng.coin(0.5);
+                if (factors_first)
+                  hist.apply(ctx, st, S_FACT);
+                hist.apply(ctx, st, S_ATT);
+                if (!factors_first)
+                  hist.apply(ctx, st, S_FACT);
+                ctx.count("steps_sp_by_set_image_downsample_factors_and_set_up");
+                break;
+              }
+            case 14: // activity and attenuation image zoomed to the grid of the current template, scatter-point image given again
+              {
+                const bool sp_is_null = st.dsi.act || st.dsi.att; // (the attenuation image is replaced first: that discards it)
+                if (sp_is_null)
+                  { // (one level of zooming only: both images are replaced first)
+                    st.act = gen_activity(ctx.rng, gen_geo(ctx.rng, w));
+                    hist.apply(ctx, st, S_ACT);
+                    new_att_image();
+                    hist.apply(ctx, st, S_ATT);
+                  }
+                const float old_zmid = w.zmid;
+                st.dsi.tmpl = st.tmpl;
+                st.dsi.act_src = st.act;
+                st.dsi.att_src = st.att;
+                st.dsi.act = st.dsi.att = true;
+                hist.apply(ctx, st, S_DSIMG);
+                {
+                  const Vox& a = dynamic_cast<const Vox&>(hist.sim.get_activity_image());
+                  w.zmid = (a.get_max_index() + a.get_min_index()) * a.get_voxel_size().z() / 2.F;
+                }
+                if (st.how.mode == 0 && !sp_is_null && std::fabs(w.zmid - old_zmid) < 0.03f && ctx.rng.coin(0.7))
+                  { // same z-middle: the scatter-point image given before is still acceptable and stays (the function does not touch it)
+                    w.zmid = old_zmid;
+                    ctx.count("steps_downsample_images_to_scanner_size_scatter_point_image_kept");
+                  }
+                else if (ctx.rng.coin(0.6))
+                  {
+                    st.how = gen_how(ctx.rng, 1, st.att_nz());
+                    hist.apply(ctx, st, S_SPDS);
+                    ctx.count("steps_downsample_images_to_scanner_size_then_sp_derived");
+                  }
+                else
+                  new_explicit_sp();
+                ctx.count("steps_downsample_images_to_scanner_size");
+                break;
+              }
+            case 15: // downsample_scanner() on the template in force (cylindrical; at most two levels)
+              {
+                std::vector<int> dets;
+                const int cur_dets = st.tmpl.eff_dets(), cur_rings = st.tmpl.eff_rings();
+                const int cur_tang = hist.sim.get_template_proj_data_info_sptr()->get_num_tangential_poss();
+                if (!st.tmpl.trans_per_block && !st.tmpl.ds2_rings)
+                  for (int d = 8; d <= cur_dets; d += 2)
+                    if (static_cast<int>(std::ceil(cur_tang * static_cast<float>(d) / cur_dets)) + 1 <= d - 2)
+                      dets.push_back(d);
+                if (dets.empty())
+                  {
+                    ctx.count("steps_downsample_scanner_not_available");
+                    break;
+                  }
+                st.tmpl.ds2_dets = ctx.rng.pick(dets);
+                st.tmpl.ds2_rings = static_cast<int>(ctx.rng.range(2, cur_rings));
+                st.tmpl.ds2_via_members = ctx.rng.coin(0.3);
+                st.tmpl.id = ++g_tmpl_counter;
+                hist.downsample_again(ctx, st);
+                if (st.how.mode == 1 && st.how.tmpl_dependent)
+                  hist.apply(ctx, st, S_SPDS);
+                else if (st.how.mode == 3)
+                  hist.apply(ctx, st, S_ATT);
+                ctx.count("steps_downsample_scanner_on_current_template");
+                break;
+              }
+            default: // nothing new: set_up / process_data again
+              ctx.count("steps_rerun_without_change");
+              break;
+            }
+        }
+      catch (const vf::Skip&)
+        {
+          throw;
+        }
+      catch (const std::exception& e)
+        {
+          step_error = e.what();
+        }
+      catch (const std::string& e)
+        {
+          step_error = e;
+        }
+      if (!step_error.empty())
+        { // the object with the history rejected a call: a fresh object has to reject the same final values
+          ctx.heartbeat("history:step-rejected");
+          std::string canon_log;
+          Out ref = fresh_canonical(ctx, st, &canon_log);
+          if (!ref.ok)
+            throw vf::Skip("step rejected, also by a fresh object: " + step_error + " / " + ref.err);
+          ctx.violation("history:call-rejected-after-history-but-accepted-when-fresh",
+                        step_error + "; final values: " + st.str() + "; history: " + hist.log_str() + "; fresh: " + canon_log);
+          return;
         }
       const bool changed = pending || what != 11;
       pending = true;
